@@ -1086,6 +1086,42 @@ def _scenario(seed: int, kind: str):
             cols.reverse()
         S(id=t2, op="summarize", src=t1, cols=cols)
         S(id="x1", op="export", src=t2, target="polars", ordered=False)
+    elif kind == "scen_window_nulls":
+        # partitioned window functions ordered by a *descending* key with an explicit nulls marker, over a key column
+        # that really holds nulls (the marker combination the Polars backend has to emulate inside over())
+        nrows = r.choice([5, 8, 10])
+        a = table("src0", [("g", "int"), ("k", "int"), ("v", "int")], nrows=nrows)
+        t0 = g.tables[-1]
+        kcol = next(c for c in t0["cols"] if c["name"] == "k")
+        gcol = next(c for c in t0["cols"] if c["name"] == "g")
+        kcol["vals"] = [None if (i % 3 == 0 or r.random() < 0.2) else r.choice([1, 2, 2, 3, 7, -1]) for i in range(nrows)]
+        gcol["vals"] = [r.choice([1, 1, 2]) for _ in range(nrows)]
+        key = {"col": [a.tid, "k"]}
+        if r.random() < 0.8:
+            key = {"fn": "descending", "args": [key]}
+        key = {"fn": r.choice(["nulls_last", "nulls_first"]), "args": [key]}
+        arr = [key, {"col": [a.tid, "id"]}]
+        part = [{"col": [a.tid, "g"]}]
+        fn = r.choice(["row_number", "rank", "dense_rank", "shift", "cum_sum"])
+        if fn in ("row_number", "rank", "dense_rank"):
+            e = {"fn": fn, "args": [], "arrange": arr if fn == "row_number" else [key], "partition_by": part}
+        elif fn == "shift":
+            e = {"fn": "shift", "args": [{"col": [a.tid, "v"]}, {"lit": r.choice([1, -1])}, {"lit": None}], "arrange": arr, "partition_by": part}
+        else:
+            e = {"fn": "cum_sum", "args": [{"col": [a.tid, "v"]}], "arrange": arr, "partition_by": part}
+        src = a.tid
+        if r.random() < 0.4:
+            gb = g.fresh_t()
+            S(id=gb, op="group_by", src=a.tid, cols=[{"col": [a.tid, "g"]}])
+            e = {k2: v2 for k2, v2 in e.items() if k2 != "partition_by"}
+            src = gb
+        m = g.fresh_t()
+        S(id=m, op="mutate", src=src, cols=[["w", e]])
+        last = m
+        if src != a.tid:
+            last = g.fresh_t()
+            S(id=last, op="ungroup", src=m)
+        S(id="x1", op="export", src=last, target="polars", ordered=False)
     elif kind == "scen_selfjoin_agg":
         # "join the aggregate back": a table joined with a summary of itself (through alias()); verbs after
         # the join use columns of the origin that the summary dropped
